@@ -98,6 +98,8 @@ class Server:
             kw['mac_key'] = self.key + b'x' if rng.random() < 0.5 else b'other'
         elif b == 'other-key-valid-mac':
             kw['mac_key'] = bytes(rng.getrandbits(8) for _ in range(rng.randint(1, 70)))
+            while kw['mac_key'].rstrip(b'\0') == self.key.rstrip(b'\0'):      # HMAC pads keys with zero bytes: such a key would be the right one
+                kw['mac_key'] = bytes(rng.getrandbits(8) for _ in range(rng.randint(2, 70)))
         elif b == 'other-mac-alg':
             if ver == 2:
                 kw['mac_alg'] = rng.choice([a for a in (1, 4, 5) if a != self.alg])
